@@ -165,6 +165,7 @@ SHAPE_CLASSES = [
     ("sext-of-array-element", re.compile(r"sext\((?:uarr|uarrdyn|field\.arr)\b")),
     ("sext-of-expression", re.compile(r"sext\((?!%s)" % _REF)),
     ("reduce-of-expression", re.compile(r"red_(?:and|or|xor)\((?!%s)" % _REF)),
+    ("cast-of-expression", re.compile(r"cast\((?!%s)" % _REF)),
 ]
 
 
@@ -178,7 +179,11 @@ def shape_class(sig):
 def _gen_shape(meta, where):
     """family:shape of the failing output of a generated design"""
     fam = meta.get("family", "?")
-    port = re.sub(r"\[\d+\]", "", where).split(".")[0].split("__")[0]
+    port = re.sub(r"\[\d+\]", "", where).split(".")[0]
+    if port.startswith("__tmpvar__"):       # a temporary of the generated source: __tmpvar__<block>_<name>
+        port = next((k for k in (meta.get("sigs") or {}) if port.endswith("_" + k)), port)
+    else:
+        port = port.split("__")[0]
     sig = (meta.get("sigs") or {}).get(port)
     wm = re.search(r"_w(\d+)", meta.get("shape", ""))
     if sig:
@@ -186,7 +191,8 @@ def _gen_shape(meta, where):
         if c:
             return c
         return "%s:%s:w%s" % (fam, sig, wm.group(1) if wm else "?")
-    return "%s:%s:%s" % (fam, _shape_key(meta), port)
+    base, _, rest = _shape_key(meta).partition(":")
+    return "%s:%s:%s%s" % (fam, base, port, ":" + rest if rest else "")
 
 
 def _shape_key(meta):
@@ -196,6 +202,9 @@ def _shape_key(meta):
 
 def _syntax_where(p):
     """the assignment target on the line a syntax error of the emitted text points at"""
+    m = re.search(r"\[assignment to (\w+)\]", p.get("info", ""))
+    if m:
+        return m.group(1)
     m = re.search(r"line (\d+)", p.get("info", ""))
     if not m:
         return ""
@@ -207,8 +216,10 @@ def _syntax_where(p):
     return m2.group(1) if m2 else ""
 
 
-def run_batch(res, backend, specs, nrand, ncyc, seed_tag, label, cross=False):
-    """Translate, simulate and validate `specs`.  Adds evidence and violations to `res`."""
+def run_batch(res, backend, specs, nrand, ncyc, seed_tag, label, cross=False, uns=False):
+    """Translate, simulate and validate `specs`.  Adds evidence and violations to `res`.
+    uns=True: every operand of the emitted text is taken as unsigned from the start (the signedness rules
+    of 6.24.1 / 11.8 are then not applied at all; see STRICT_SIGNED_CAST in props/c12.py)."""
     B = Batch(backend, label)
     preps = B.preps = prepare_all(specs, backend, nrand, ncyc, seed_tag, cross=cross)
     bad = [p for p in preps if p["status"] in ("unsupported", "machinery", "unresolvable") or
@@ -220,14 +231,18 @@ def run_batch(res, backend, specs, nrand, ncyc, seed_tag, label, cross=False):
         res.count("%s_status_%s" % (label, p["status"]))
         dk, meta = design_key(p)
         if p["status"] == "syntax":
-            msg = re.sub(r"module \w+: ", "", _norm(p["info"]))[:100]
+            msg = re.sub(r" \[assignment to \w+\]", "", re.sub(r"module \w+: ", "", _norm(p["info"])))[:100]
+            where = _syntax_where(p)
             if meta is None:
                 skey = dk
-            elif re.search(r"line \d+", p["info"]):
-                skey = "gen:" + _gen_shape(meta, _syntax_where(p))
-            else:       # name resolution / type errors carry no line: family + message with the names abstracted
+            elif re.search(r"not declared|not of struct type|has no member", msg):
+                # name / type errors describe themselves: the message with the names abstracted
                 skey = "gen"
                 msg = re.sub(r"'__\w+'", "'__<member>'", re.sub(r"select \.\w+", "select .<member>", msg))
+            elif where:
+                skey = "gen:" + _gen_shape(meta, where)     # a named shape class, or family + shape of the statement
+            else:
+                skey = "gen:" + meta.get("family", "?")
             res.violation("syntax:%s:%s:%s" % (backend, skey, msg),
                           "%s back end: the text emitted for %s is not valid: %s" % (backend, p.get("name"), p["info"]),
                           {"spec": list(p["spec"][:2]), "text": p.get("text", "")[-3000:]})
@@ -252,6 +267,8 @@ def run_batch(res, backend, specs, nrand, ncyc, seed_tag, label, cross=False):
         for t in p["traces"]:
             t["w"] = p.get("nodes", 1)
             t["owner"] = pi
+            if uns and t["mode"] == "run":
+                t["d"] = dict(t["d"], uns=True)
             B.traces.append(t)
     traces = B.traces
     runs, vi = validate(traces)
@@ -260,7 +277,7 @@ def run_batch(res, backend, specs, nrand, ncyc, seed_tag, label, cross=False):
         res.add_tlc(r)
     # second opinion for designs with signed (integer) variables: signedness ignored
     retry = [i for i, (t, (v, info)) in enumerate(zip(traces, vi))
-             if t["mode"] == "run" and v[0] != "ok" and has_signed(t["d"])]
+             if t["mode"] == "run" and v[0] != "ok" and has_signed(t["d"]) and not t["d"]["uns"]]
     if retry:
         rt = []
         for i in retry:
@@ -326,14 +343,16 @@ def run_batch(res, backend, specs, nrand, ncyc, seed_tag, label, cross=False):
             (err, pos), tinfo = lv[0], lv[1].get("T", (0, 0, 0))
             eff = err
         B.clauses[eff] = B.clauses.get(eff, 0) + 1
-        k = tinfo[0]
-        where = ""
-        if err.startswith("mismatch") and k:
-            e = t["ev"][pos - 1]["outc" if err == "mismatch-comb" else "outt"][k - 1]
-            where = e["n"] + "".join("[%d]" % x for x in e["ix"])
-        elif err.startswith("port-map") and k:
-            e = t["ev"][pos - 1]["in" if "input" in err else "outc"][k - 1]
-            where = e["n"]
+        ks = list(tinfo[3]) if len(tinfo) > 3 and tinfo[3] else ([tinfo[0]] if tinfo[0] else [])
+        wheres = []
+        for k in ks:
+            if err.startswith("mismatch"):
+                e = t["ev"][pos - 1]["outc" if err == "mismatch-comb" else "outt"][k - 1]
+                wheres.append(e["n"] + "".join("[%d]" % x for x in e["ix"]))
+            elif err.startswith("port-map"):
+                e = t["ev"][pos - 1]["in" if "input" in err else "outc"][k - 1]
+                wheres.append(e["n"])
+        where = wheres[0] if wheres else ""
         if is_cross:
             # the SystemVerilog text on the vectors of the yosys check: C03's business, recorded only
             res.count("%s_cross_sv_text_rejects_same_vectors" % label)
@@ -361,13 +380,18 @@ def run_batch(res, backend, specs, nrand, ncyc, seed_tag, label, cross=False):
                           % (backend, name, err, pos), detail)
             continue
         cls = "mismatch" if err.startswith("mismatch") else err
-        if meta is not None:
-            what = _gen_shape(meta, where) + ("" if cls == "mismatch" else ":" + cls)
-            key = "behaviour:%s:gen:%s" % (backend, what)
-        else:
-            key = "behaviour:%s:%s:%s:%s" % (backend, dk, cls, where)
-        res.violation(key, "%s back end, design %s (%s): %s at cycle %d %s"
-                      % (backend, name, t["tag"], err, pos, where), detail)
+        seen_keys = set()
+        for where in (wheres or [""]):
+            if meta is not None:
+                what = _gen_shape(meta, where) + ("" if cls == "mismatch" else ":" + cls)
+                key = "behaviour:%s:gen:%s" % (backend, what)
+            else:
+                key = "behaviour:%s:%s:%s:%s" % (backend, dk, cls, re.sub(r"\[\d+\]", "[N]", where))
+            if key in seen_keys:
+                continue
+            seen_keys.add(key)
+            res.violation(key, "%s back end, design %s (%s): %s at cycle %d %s"
+                          % (backend, name, t["tag"], err, pos, where), detail)
     for (owner, name, err, pos, where) in vec_fail:
         if owner in failed_design:
             res.count("%s_hand_vector_sets_failing_like_the_pymtl_trace" % label)
@@ -523,26 +547,28 @@ def canaries(res, batches, R, n=12, portmap=False):
     good.sort(key=lambda t: t["tag"])
     R.shuffle(good)
     can, kinds = [], []
+    nbit = nop = 0
     for t in good:
-        if len(can) >= n:
+        if nbit >= n and nop >= n:
             break
         if t.get("w", 1) * len(t["ev"]) > 40000:
             continue                        # keep the canary run cheap
-        kind = len(can) % 3
-        c = copy.deepcopy(_strip(t))
-        if kind in (0, 1):
-            evs = [i for i, e in enumerate(c["ev"]) if e["outc" if kind == 0 else "outt"]]
-            if not evs:
-                continue
-            e = c["ev"][R.choice(evs)]
-            ent = R.choice(e["outc"] if kind == 0 else e["outt"])
-            b = R.randrange(len(ent["v"]))
-            ent["v"][b] ^= 1
-            can.append(c)
-            kinds.append("output-bit")
-        elif _mutate_op(c["d"], R):
-            can.append(c)
-            kinds.append("operator")
+        if nbit < n:
+            c = copy.deepcopy(_strip(t))
+            lst = "outc" if nbit % 2 == 0 else "outt"
+            evs = [i for i, e in enumerate(c["ev"]) if e[lst]]
+            if evs:
+                ent = R.choice(c["ev"][R.choice(evs)][lst])
+                ent["v"][R.randrange(len(ent["v"]))] ^= 1
+                can.append(c)
+                kinds.append("output-bit")
+                nbit += 1
+        if nop < n:
+            c = copy.deepcopy(_strip(t))
+            if _mutate_op(c["d"], R):
+                can.append(c)
+                kinds.append("operator")
+                nop += 1
     if portmap:
         npm = {"swapped-struct-fields": 0, "reversed-array-index": 0, "exchanged-port-array-elements": 0}
         for t in good:
